@@ -568,6 +568,16 @@ def tour():
                     hs.append(["reset", "iter 0 %s %s lens=- hints=0:%d items=%s panic=-" % (which, h, up, its), "dropAll"])
                 hs.append(["reset", "iter 0 %s %s lens=- hints=0:* items=%s panic=-" % (which, h, its), "conv 0 shareable", "clone 1 0", "dropAll"])
                 hs.append(["reset", "iter 0 %s %s lens=- hints=%d:%d items=%s panic=-" % (which, h, actual, actual + 3, its), "dropAll"])
+    # impossible lengths reported by an exact-size iterator (the byte size of the slice overflows / exceeds isize::MAX):
+    # refused before anything is allocated or taken from the iterator; the header and the items die with the call
+    for N in (2 ** 61 + 2, 2 ** 63 - 1, 2 ** 63, 2 ** 64 - 1):
+        for its in ("-", "1:1,2:2"):
+            hs.append(["reset", "iter 0 hsFromIter 9:9 lens=%d hints=- items=%s panic=-" % (N, its), "dropAll"])
+            hs.append(["reset", "iter 0 thinFromIter 9:9 lens=%d,%d hints=- items=%s panic=-" % (N, N, its), "dropAll"])
+            hs.append(["reset", "iter 0 thinFromIter 9:9 lens=2,%d hints=- items=%s panic=-" % (N, its), "dropAll"])
+            hs.append(["reset", "iter 0 thinFromIter 9:9 lens=%d,2 hints=- items=%s panic=-" % (N, its), "dropAll"])
+            for which in ("fromIter", "uniqueFromIter"):
+                hs.append(["reset", "iter 0 %s - lens=- hints=%d:%d items=%s panic=-" % (which, N, N, its), "dropAll"])
     # constructors: lengths across internal boundaries, capacities >= length
     for n in list(range(0, 12)) + [31, 32, 33, 255, 256, 1000]:
         its = ",".join("%d:%d" % (i + 1, i % 7) for i in range(n)) or "-"
@@ -607,7 +617,7 @@ def owners(slots, b):
     return sum(1 for s in slots.values() if s["blk"] == b)
 
 
-def monitor_history(ops, obs):
+def monitor_history(ops, obs, elem_size=8):
     """ops[0] == 'reset'; obs[i] = parsed observation of ops[i] (None for reset / unparsable).
     returns list of (op index, [properties], message)."""
     fails = []
@@ -810,6 +820,28 @@ def monitor_history(ops, obs):
                     if (tk == "mut=some") != (own.get(cur, 0) == 1):
                         fails.append((i, ["C03"], "get_mut inside the with_arc_mut callback answered %s while %d owning handle(s) refer to b%d" % (tk[4:], own.get(cur, 0), cur)))
                         break
+        if f[0] == "iter" and len(f) == 8 and elem_size > 0:
+            # C05: "a size computation that overflows is refused with a panic instead of allocating a short block" — whatever
+            # length the iterator reports, a block allocated by this constructor call is large enough for that many elements
+            try:
+                lens_ = f[4][len("lens="):]
+                hints_ = f[5][len("hints="):]
+                n_alloc = None
+                if f[2] in ("hsFromIter", "thinFromIter") and lens_ != "-":
+                    ll = [int(x) for x in lens_.split(",")]
+                    n_alloc = ll[0] if f[2] == "hsFromIter" else (ll[1] if len(ll) > 1 else ll[0])
+                elif f[2] in ("fromIter", "uniqueFromIter") and hints_ != "-":
+                    hh = hints_.split(",")
+                    lo, up = hh[0].split(":")
+                    if up != "*" and int(lo) == int(up) and len(set(hh)) == 1:
+                        n_alloc = int(lo)
+                if n_alloc is not None and n_alloc >= 2 ** 32:
+                    for e in o["ev"]:
+                        pp = e.split(":")
+                        if pp[0] == "alloc" and int(pp[2]) < n_alloc * elem_size:
+                            fails.append((i, ["C05", "C06", "C07"], "the iterator reported %d elements of %d bytes; the constructor allocated a block of %s bytes for them (short block: the byte size overflowed) instead of refusing" % (n_alloc, elem_size, pp[2])))
+            except ValueError:
+                pass
         if f[0] == "iter" and st.startswith("panic") and len(f) == 8:
             # C06: an HONEST iterator (every reported length / size_hint it ever gives is true, next() never panics) must be accepted
             try:
@@ -906,7 +938,7 @@ def monitor_history(ops, obs):
                         where[kk] = cur
                         cur = nb
             if post[src]["blk"] != cur or any(kk in post and post[kk]["blk"] != b for kk, b in where.items()):
-                fails.append((i, ["C10", "C07", "C03"], "with_arc_mut: the callback swapped the Arc but afterwards the ThinArcs point at %s (expected s%d -> b%d, %s)" % (
+                fails.append((i, ["C10", "C07", "C03", "C11"], "with_arc_mut: the callback swapped the Arc but afterwards the ThinArcs point at %s (expected s%d -> b%d, %s)" % (
                     {k: post[k]["blk"] for k in [src] + list(where) if k in post}, src, cur, {k: "b%d" % b for k, b in where.items()})))
         if f[0] == "cb" and len(f) > 3 and f[2] == "thinWithArcMut" and "replaced;" in o["out"] and "swapped;" not in o["out"] and src in pre and src in post:
             ks = [int(x.split(":")[1]) for x in f[3].split(",") if x.startswith("replace:")]
@@ -925,7 +957,9 @@ def monitor_history(ops, obs):
                         cur = tmp[kk]["blk"]
                         del tmp[kk]
             if post[src]["blk"] != cur:
-                fails.append((i, ["C10", "C07"], "with_arc_mut replaced the Arc but the ThinArc points at b%d instead of b%d" % (post[src]["blk"], cur)))
+                # ... and C11: the word the ThinArc stores (what as_ptr / into_raw / heap_ptr hand out) is not the address of the
+                # allocation it owns a reference to
+                fails.append((i, ["C10", "C07", "C11"], "with_arc_mut replaced the Arc but the ThinArc points at b%d instead of b%d" % (post[src]["blk"], cur)))
         # C10: a thin handle's view has as many elements as its digest shows
         for k, s in post.items():
             if s["kind"] in ("thin", "rawThin") or s["ty"] in ("slice", "uslice", "hs", "hwl"):
@@ -1221,7 +1255,8 @@ def relevant(prop, ops, k, a, b):
     if prop == "C10":
         return f[0] == "intoThin" or "thin" in ops[k].lower() or bool(kinds & {"thin", "rawThin"}) or "hwl" in tys
     if prop == "C11":
-        return (f[0] == "conv" and len(f) > 2 and f[2] in RAW_CONVS) or bool(kinds & {"raw", "rawThin", "offset"}) or "rawOffset" in ops[k]
+        return (f[0] == "conv" and len(f) > 2 and f[2] in RAW_CONVS) or bool(kinds & {"raw", "rawThin", "offset", "thin"}) or "rawOffset" in ops[k] \
+            or (f[0] == "cb" and "thinWithArcMut" in ops[k] and ("replace" in ops[k] or "swap" in ops[k]))
     if prop == "C12":
         return "union" in ops[k].lower() or bool(kinds & {"unionA", "unionB"})
     if prop == "C15":
@@ -1325,7 +1360,7 @@ def zst_eval(harness_exe_zst, model_exe, ops):
             o["ev"] = [e for e in o["ev"] if not e.startswith("drop:")]
             for s2 in o["slots"].values():
                 s2["dig"] = "_"
-    mon = [(k, props, msg + " [zero-sized payload build]") for (k, props, msg) in monitor_history(ops, iobs) + extra
+    mon = [(k, props, msg + " [zero-sized payload build]") for (k, props, msg) in monitor_history(ops, iobs, elem_size=0) + extra
            if "visible" not in msg and "delivered" not in msg and "digest" not in msg]
     return dis, mon, irc, il, ml
 
@@ -1385,7 +1420,7 @@ def run_zst_pass(ctx, histories, harness_exe_zst, model_exe):
                 o["ev"] = [e for e in o["ev"] if not e.startswith("drop:")]
                 for s2 in o["slots"].values():
                     s2["dig"] = "_"
-        for (k, props, msg) in monitor_history(ops, iobs) + extra:
+        for (k, props, msg) in monitor_history(ops, iobs, elem_size=0) + extra:
             if "visible" not in msg and "delivered" not in msg and "digest" not in msg:
                 mon.append((idx[hi], k, props, msg + " [zero-sized payload build]"))
     return len(hs), dis, mon, [(idx[k], rc) for k, rc in crashes]
